@@ -148,7 +148,7 @@ func (w *c14walker) dfs(seq []int) {
 func init() {
 	core.Register(&core.Check{
 		ID: "C14", Level: "model_checking",
-		Rule:   "explicit-state exploration of the transcript machine: ALL operation sequences up to length 5 (6 thorough) over a 20-operation menu (DomainSep/AppendMessage/AppendScalar/AppendPoint/ChallengeScalar with labels {\"\",a,ab,protocol labels}, messages {empty,1,64,1100 bytes}, scalars {0,r-1,PRF}, points in 4 representations incl. the identity as (0,-1)) x protocol label {\"\",vt}, each history closed by a challenge and replayed on a fresh implementation transcript and on the reference; a state is the reference's framed absorbed-byte history (distinct ones counted with a hash set), a transition one real API call; plus long chains: a challenge after every pending size 0..5000 bytes, 64 consecutive challenges, many small appends crossing the 1024-byte initial buffer",
+		Rule:   "explicit-state exploration of the transcript machine: ALL operation sequences up to length 5 (6 thorough) over a 20-operation menu (DomainSep/AppendMessage/AppendScalar/AppendPoint/ChallengeScalar with labels {\"\",a,ab,protocol labels}, messages {empty,1,64,1100 bytes}, scalars {0,r-1,PRF}, points in 4 representations incl. the identity as (0,-1)) x protocol label {\"\",vt}, each history closed by a challenge and replayed on a fresh implementation transcript and on the reference; a state is the reference's framed absorbed-byte history (distinct ones counted with a hash set), a transition one real API call; plus the same *Element / *fr.Element variable appended repeatedly while it changes; plus long chains: a challenge after every pending size 0..5000 bytes, 64 consecutive challenges, many small appends crossing the 1024-byte initial buffer",
 		Assume: []string{"reference transcript: SHA-256 chain of the specification (pinned by the cross-implementation vectors)", "the transcript has no framing: binding is 'iff the reference absorbs the same byte stream', nothing stricter"},
 		Units:  c14Units,
 	})
